@@ -570,7 +570,9 @@ def run_property(prop, tier, instances, meta, seed=0, only=None, extra_reports=N
     }
     if extra_reports:
         ev["coverage"].update(extra_reports)
-    with open(os.path.join(EVIDENCE, prop + ".json"), "w") as f:
+    # a run restricted with --only is a development aid: it must not replace the property's evidence record
+    ev_path = os.path.join(EVIDENCE, prop + ".json") if not only else os.path.join(BUILD, prop + ".partial-evidence.json")
+    with open(ev_path, "w") as f:
         json.dump(ev, f, indent=1)
     print("SUMMARY property=%s tier=%s instances=%d holds=%d violated=%d undecided=%d error=%d wall=%.0fs" % (
         prop, tier, len(results), sum(1 for r in results if r.verdict == "holds"), len(violations),
